@@ -66,11 +66,18 @@ func handleJcc(params x86genParams, ctx *CodeGenContext) ([]byte, error) {
 			return nil, fmt.Errorf("invalid segment format in JMP_FAR operand: '%s'", segmentPart)
 		}
 
-		segment, err := strconv.ParseInt(segmentStr, 10, 16) // セグメントは16ビット
+		// セグメントは16ビット、オフセットは32ビットのフィールド (符号なし表記 0x8000..0xFFFF / 0x80000000..0xFFFFFFFF も収まる)
+		segment, err := strconv.ParseInt(segmentStr, 10, 64)
+		if err == nil && (segment < -0x8000 || segment > 0xffff) {
+			err = strconv.ErrRange
+		}
 		if err != nil {
 			return nil, fmt.Errorf("invalid segment value '%s' for JMP_FAR: %v", segmentStr, err)
 		}
-		offset, err := strconv.ParseInt(offsetStr, 10, 32) // オフセットは32ビット
+		offset, err := strconv.ParseInt(offsetStr, 10, 64)
+		if err == nil && (offset < -0x80000000 || offset > 0xffffffff) {
+			err = strconv.ErrRange
+		}
 		if err != nil {
 			return nil, fmt.Errorf("invalid offset value '%s' for JMP_FAR: %v", offsetStr, err)
 		}
